@@ -545,7 +545,7 @@ def finish_case(ctx, case):
         if k == 3 and case["ctrl_state"] == "010" and case["entry"] == "definition":
             sample = {x: case[x] for x in ("class", "k", "ctrl_state", "mat_family", "matrix", "entry", "eval")}
     elif case["kind"] == "multitarget":
-        fam = f"MultiTargetMCSU2:nt{nt}:{case['rot_family']}"
+        fam = f"MultiTargetMCSU2:{case['rot_family']}"
         key = ("mt", k, case["ctrl_state"], str(case["rotations"]), case["entry"], case.get("state_seed"),
                tuple(case.get("placement", ())))
         sample = dict(case) if (k == 3 and nt == 2) else None
@@ -555,7 +555,7 @@ def finish_case(ctx, case):
         sample = {x: case[x] for x in ("class", "k", "ctrl_state", "mat_family", "error", "base_aimed", "eval")} \
             if k == 4 else None
     if case["entry"] == "static":
-        fam += ":static"
+        fam = f"{case['class']}:static_entry_point"
     case["family"] = fam
     ctx.count(fam, key=key, nontrivial=True, sample=sample)
     ctx.max_struct_qubits = max(ctx.max_struct_qubits, width)
